@@ -97,7 +97,7 @@ func vestStateStr(x *Exec, f *vestFam, ctx sdk.Context) string {
 			if p.GenesisPool {
 				g = 1
 			}
-			pp = append(pp, fmt.Sprintf("%s~%s~%s~%d~%d~%s~%s~%s~%d", avp.Owner, esc(p.Name), esc(p.VestingType), p.LockStart.UnixNano(), p.LockEnd.UnixNano(),
+			pp = append(pp, fmt.Sprintf("%s~%s~%s~%s~%s~%s~%s~%s~%d", avp.Owner, esc(p.Name), esc(p.VestingType), nanosOf(p.LockStart), nanosOf(p.LockEnd),
 				p.InitiallyLocked, p.Withdrawn, p.Sent, g))
 		}
 	}
